@@ -42,4 +42,7 @@ func init() {
 	mut("C14", "the shared close overwrites the cached terminal result", "freighter/go/http/stream.go",
 		"	c.closed = true\n	close(c.normalShutdownSig)", "	c.closed = true\n	c.peerCloseErr = freighter.ErrStreamClosed\n	close(c.normalShutdownSig)", "C14.R3.overwrite")
 
+	// ---------------- E14 (error flow)
+	mut("C14", "TransformReceiver tests ok before the transform's error", "freighter/go/freightfluence/receiver.go",
+		"			if err != nil {\n				return err\n			}\n			if !ok {\n				continue o\n			}", "			if !ok {\n				continue o\n			}\n			if err != nil {\n				return err\n			}", "C14.ERR")
 }
